@@ -1723,6 +1723,9 @@ def get_primitive_matrix(
             else:
                 msg = "Determinant of primitive_matrix has to be larger than 0"
                 raise RuntimeError(msg)
+        else:
+            msg = "Elements of primitive_matrix have to be numbers."
+            raise RuntimeError(msg)
     else:
         msg = (
             "primitive_matrix has to be a 3x3 matrix, None, 'auto', "
